@@ -38,9 +38,27 @@ static void rand_cb(unsigned char *buf, size_t len) {
 
 // counting allocator: exact ledger of library allocations per history
 long g_live_allocs = 0;
-static void *c_malloc(size_t n) { void *p = malloc(n); if (p) g_live_allocs++; return p; }
+long g_alloc_count = 0;   // allocations requested by the library on behalf of the application (not harness plumbing)
+long g_fail_at     = 0;   // fail exactly this allocation (0 = never)
+int  g_plumb       = 0;   // >0 while the harness itself uses the library for plumbing (decoding / building packets)
+static bool fail_now() {
+  if (g_plumb > 0) return false;
+  g_alloc_count++;
+  if (g_fail_at != 0 && g_alloc_count == g_fail_at) {
+    ev("{\"e\":\"oom\",\"n\":%ld}", g_alloc_count);
+    return true;
+  }
+  return false;
+}
+static void *c_malloc(size_t n) {
+  if (fail_now()) return nullptr;
+  void *p = malloc(n);
+  if (p) g_live_allocs++;
+  return p;
+}
 static void  c_free(void *p) { if (p) g_live_allocs--; free(p); }
 static void *c_realloc(void *p, size_t n) {
+  if (fail_now()) return nullptr;
   void *q = realloc(p, n);
   if (p == nullptr && q != nullptr) g_live_allocs++;
   return q;
@@ -101,7 +119,10 @@ static void cb_end(Tok *tok) { ev("{\"e\":\"cbe\",\"t\":%d}", tok->id); }
 
 static void dnsrec_cb(void *arg, ares_status_t status, size_t timeouts, const ares_dns_record_t *rec) {
   Tok *tok = (Tok *)arg;
-  cb_begin(tok, status, timeouts, describe_dnsrec(rec));
+  g_plumb++;
+  std::string d0 = describe_dnsrec(rec);
+  g_plumb--;
+  cb_begin(tok, status, timeouts, d0);
   run_nest(tok, (int)status);
   cb_end(tok);
 }
@@ -110,12 +131,14 @@ static void legacy_cb(void *arg, int status, int timeouts, unsigned char *abuf, 
   Tok               *tok = (Tok *)arg;
   ares_dns_record_t *rec = nullptr;
   std::string        d   = "\"rec\":0";
+  g_plumb++;
   if (abuf != nullptr && alen > 0 && ares_dns_parse(abuf, (size_t)alen, 0, &rec) == ARES_SUCCESS) {
     d = describe_dnsrec(rec);
     ares_dns_record_destroy(rec);
   } else if (abuf != nullptr) {
     d = "\"rec\":0,\"unparsable\":1";
   }
+  g_plumb--;
   cb_begin(tok, status, (size_t)timeouts, d + ",\"legacy\":1");
   run_nest(tok, (int)status);
   cb_end(tok);
@@ -496,7 +519,9 @@ void exec_step(const J &st, int incb) {
       Packet p;
       p.pid       = ++g_pid;
       p.wrongaddr = st["wrongaddr"].num() != 0;
+      g_plumb++;
       p.bytes     = build_reply(*f, st, p.pid, p.desc);
+      g_plumb--;
       if (s.tcp) {
         std::string fr;
         fr += (char)(p.bytes.size() >> 8);
@@ -615,6 +640,9 @@ void run_history(const J &hist) {
   g_tfo_ok           = g_cfg["tfo"].num(0) != 0;
 
   g_live_allocs = 0;
+  g_alloc_count = 0;
+  g_plumb       = 0;
+  g_fail_at     = g_cfg["failalloc"].num(0);
   ares_library_init_mem(ARES_LIB_INIT_ALL, c_malloc, c_free, c_realloc);
   struct ares_options opts;
   memset(&opts, 0, sizeof opts);
@@ -689,12 +717,21 @@ void run_history(const J &hist) {
     ev("{\"e\":\"initfail\",\"rc\":\"%s\"}", stname(rc));
     g_channel = nullptr;
     ares_library_cleanup();
+    ev("{\"e\":\"end\",\"nocb\":[],\"frames\":0,\"leaked\":%ld,\"allocs\":%ld}", g_live_allocs, g_alloc_count);
     return;
   }
   vsock_install(g_channel);
   g_nservers = (int)g_cfg["nsrv"].num(1);
-  if (g_cfg.has("servers")) ares_set_servers_csv(g_channel, g_cfg["servers"].str().c_str());
-  else ares_set_servers_csv(g_channel, servers_csv(g_nservers, g_cfg["v6"].num() != 0).c_str());
+  int src = g_cfg.has("servers") ? ares_set_servers_csv(g_channel, g_cfg["servers"].str().c_str())
+                                 : ares_set_servers_csv(g_channel, servers_csv(g_nservers, g_cfg["v6"].num() != 0).c_str());
+  if (src != ARES_SUCCESS) {  // set-up itself failed (allocation failure injection): treated like a failed initialisation
+    ev("{\"e\":\"initfail\",\"rc\":\"%s\"}", stname(src));
+    ares_destroy(g_channel);
+    g_channel = nullptr;
+    ares_library_cleanup();
+    ev("{\"e\":\"end\",\"nocb\":[],\"frames\":0,\"leaked\":%ld,\"allocs\":%ld}", g_live_allocs, g_alloc_count);
+    return;
+  }
   ares_set_server_state_callback(g_channel, server_state_cb, nullptr);
   if (g_cfg["pendwrite"].num()) ares_set_pending_write_cb(g_channel, pending_write_cb, nullptr);
   if (g_cfg.has("sortlist")) ares_set_sortlist(g_channel, g_cfg["sortlist"].str().c_str());
@@ -727,5 +764,5 @@ void run_history(const J &hist) {
     delete kv.second;
   }
   g_toks.clear();
-  ev("{\"e\":\"end\",\"nocb\":[%s],\"frames\":%zu,\"leaked\":%ld}", pend.c_str(), g_frames.size(), g_live_allocs);
+  ev("{\"e\":\"end\",\"nocb\":[%s],\"frames\":%zu,\"leaked\":%ld,\"allocs\":%ld}", pend.c_str(), g_frames.size(), g_live_allocs, g_alloc_count);
 }
